@@ -445,32 +445,49 @@ theorem val_strInt_neg (m : Nat) (hm : 0 < m) (hn : m < exactLimit) :
   rw [val, h1, h2, valScan_decimal m hn [] false .sign (by simp)]
   simp [valScan]
 
-/-- VAL(STR$(k)) = k for every INTEGER and every LONG `k`; the result is an INTEGER when `k` fits. -/
-theorem val_str_roundtrip (k : Int) (hlo : -2147483648 ≤ k) (hhi : k ≤ 2147483647) :
-    val (strInt k) = some (if -32768 ≤ k ∧ k ≤ 32767 then .integer k else .long k) := by
-  by_cases hk : 0 ≤ k
-  · obtain ⟨n, rfl⟩ := Int.eq_ofNat_of_zero_le hk
-    rw [val_strInt_nonneg n (by unfold exactLimit; omega)]
-    unfold valFinish
-    by_cases h1 : n ≤ 32767
-    · have : -32768 ≤ (n : Int) ∧ (n : Int) ≤ 32767 := by omega
-      simp [h1, this]
-    · have : ¬ (-32768 ≤ (n : Int) ∧ (n : Int) ≤ 32767) := by omega
-      have h2 : n ≤ 2147483647 := by omega
-      simp [h1, h2]
+/-- VAL(STR$(k)) = k, as a DOUBLE, for every whole number `k` with `|k| < 2^53` — in particular for every
+INTEGER and every LONG.  The result is the double with the sign and the magnitude of `k`. -/
+theorem val_str_roundtrip (k : Int) (hlo : -(exactLimit : Int) < k) (hhi : k < (exactLimit : Int)) :
+    val (strInt k) = some (.double (decide (k < 0)) k.natAbs) ∧
+    ∀ r, val (strInt k) = some r → r.toInt = k := by
+  have main : val (strInt k) = some (.double (decide (k < 0)) k.natAbs) := by
+    by_cases hk : 0 ≤ k
+    · obtain ⟨n, rfl⟩ := Int.eq_ofNat_of_zero_le hk
+      rw [val_strInt_nonneg n (by omega)]
+      have : ¬ ((n : Int) < 0) := by omega
+      simp [valFinish, this]
+    · obtain ⟨m, hm⟩ : ∃ m : Nat, k = -(m : Int) := ⟨(-k).toNat, by omega⟩
+      subst hm
+      have hm0 : 0 < m := by omega
+      rw [val_strInt_neg m hm0 (by omega)]
+      simp [valFinish]
       omega
-  · obtain ⟨m, hm⟩ : ∃ m : Nat, k = -(m : Int) := ⟨(-k).toNat, by omega⟩
-    subst hm
-    have hm0 : 0 < m := by omega
-    rw [val_strInt_neg m hm0 (by unfold exactLimit; omega)]
-    unfold valFinish
-    by_cases h1 : m ≤ 32768
-    · have : -32768 ≤ -(m : Int) ∧ -(m : Int) ≤ 32767 := by omega
-      simp [h1, this]
-    · have : ¬ (-32768 ≤ -(m : Int) ∧ -(m : Int) ≤ 32767) := by omega
-      have h2 : m ≤ 2147483648 := by omega
-      simp [h1, h2]
-      omega
+  refine ⟨main, ?_⟩
+  intro r hr
+  rw [main] at hr
+  cases hr
+  by_cases hk : k < 0
+  · simp only [hk, decide_true, VRes.toInt]; omega
+  · simp only [hk, decide_false, VRes.toInt]; omega
+
+/-- The INTEGER and LONG instances of the property's clause. -/
+theorem val_str_roundtrip_long (k : Int) (hlo : -2147483648 ≤ k) (hhi : k ≤ 2147483647) :
+    ∃ r, val (strInt k) = some r ∧ r.toInt = k := by
+  have h := val_str_roundtrip k (by unfold exactLimit; omega) (by unfold exactLimit; omega)
+  exact ⟨_, h.1, h.2 _ h.1⟩
+
+/-- The same for STR$ of a whole SINGLE/DOUBLE value below 2^53 (it prints the plain digits). -/
+theorem val_str_roundtrip_whole_float (k : Int) (hlo : -(exactLimit : Int) < k) (hhi : k < (exactLimit : Int)) :
+    ∃ r, val (strWholeFloat k) = some r ∧ r.toInt = k := by
+  have h := val_str_roundtrip k hlo hhi
+  exact ⟨_, h.1, h.2 _ h.1⟩
+
+/-- VAL never fails on the modelled fragment and an empty scan gives (positive) zero. -/
+theorem val_empty_scan : val [] = some (.double false 0) ∧ val [45] = some (.double false 0) ∧
+    val [120, 49] = some (.double false 0) := by decide
+
+example : val (strInt 9007199254740991) = some (.double false 9007199254740991) :=
+  (val_str_roundtrip 9007199254740991 (by decide) (by decide)).1
 
 /-- The digits `decimal` prints are digits, and they denote `n` (so `decimal` is the standard decimal
 numeral of `n`, the assumption made about `format!("{}", n)`). -/
@@ -497,11 +514,164 @@ theorem decimal_value (n : Nat) : (decimal n).foldl (fun acc d => acc * 10 + (d 
       have := Nat.div_add_mod n 10
       omega
 
-example : val [32, 45, 32, 52, 50, 120] = some (.integer (-42)) ∧ val [49, 46, 53] = none ∧
-    val [51, 50, 55, 54, 56] = some (.long 32768) ∧ val [43, 55, 46, 120] = some (.integer 7) := by decide
+example : val [32, 45, 32, 52, 50, 120] = some (.double true 42) ∧ val [49, 46, 53] = none ∧
+    val [51, 50, 55, 54, 56] = some (.double false 32768) ∧ val [43, 55, 46, 120] = some (.double false 7) ∧
+    val [45, 48] = some (.double true 0) := by decide
 
 example : strInt 42 = [32, 52, 50] ∧ strInt (-32768) = [45, 51, 50, 55, 54, 56] := by
   simp [strInt, decimal]
+
+/-! ### Laws that relate several functions (the compositions the harness runs as nested calls) -/
+
+/-- RIGHT$(s, n) = MID$(s, LEN(s) - n + 1) for `0 ≤ n ≤ LEN(s)`. -/
+theorem right_eq_mid (s : List Nat) (n : Int) (h0 : 0 ≤ n) (hn : n ≤ (len s : Int)) :
+    right s n = mid s ((len s : Int) - n + 1) none := by
+  have hlen : len s = s.length := rfl
+  rw [hlen] at hn ⊢
+  have hpos : 0 < (s.length : Int) - n + 1 := by omega
+  simp only [right, mid, doMid, toNonNegativeInt_nonneg h0, toPositiveInt_pos hpos]
+  have e : ((s.length : Int) - n + 1).toNat - 1 = s.length - n.toNat := by omega
+  rw [e]
+  by_cases h : s.length > n.toNat
+  · rw [if_pos h]
+  · rw [if_neg h]
+    have : s.length - n.toNat = 0 := by omega
+    rw [this, List.drop_zero]
+
+/-- For `n > LEN(s)` RIGHT$ returns the whole string, while the MID$ expression has a non-positive start:
+the hypothesis `n ≤ LEN(s)` of `right_eq_mid` cannot be dropped. -/
+theorem right_eq_mid_needs_bound :
+    right [97] 3 = .ok [97] ∧ mid [97] ((len [97] : Int) - 3 + 1) none = .error .illegalFunctionCall := by
+  decide
+
+example : right [104, 97, 121] 2 = mid [104, 97, 121] ((len [104, 97, 121] : Int) - 2 + 1) none ∧
+    right [104, 97, 121] 2 = .ok [97, 121] := by decide
+
+/-- LEFT$(LEFT$(s, n), m) = LEFT$(s, min n m). -/
+theorem left_left (s : List Nat) (n m : Int) (hn : 0 ≤ n) (hm : 0 ≤ m) :
+    (match left s n with | .ok l => left l m | .error e => .error e) = left s (min n m) := by
+  have hmin : 0 ≤ min n m := by omega
+  simp only [left, toNonNegativeInt_nonneg hn, toNonNegativeInt_nonneg hm, toNonNegativeInt_nonneg hmin]
+  rw [List.take_take]
+  congr 2
+  omega
+
+example : (match left [97, 98, 99, 100] 3 with | .ok l => left l 2 | .error e => .error e) = .ok [97, 98] := by
+  decide
+
+/-- LTRIM$(RTRIM$(s)) = RTRIM$(LTRIM$(s)): stripping both ends does not depend on the order. -/
+theorem ltrim_rtrim_comm (s : List Nat) : ltrim (rtrim s) = rtrim (ltrim s) := by
+  obtain ⟨k, hk, hhead⟩ := ltrim_exact s
+  obtain ⟨j, hj, hlast⟩ := rtrim_exact (ltrim s)
+  by_cases hc : rtrim (ltrim s) = []
+  · -- `s` consists of blanks only
+    rw [hc] at hj
+    have hs : s = [] ++ List.replicate (k + j) 32 := by
+      rw [hk, hj]; simp
+    have : rtrim s = [] := by
+      rw [hs]; exact rtrim_unique (k + j) [] (by simp)
+    rw [this, hc]; rfl
+  · -- `s` = k blanks, a core `c` without a blank at either end, j blanks
+    have hc' : ∃ a cs, rtrim (ltrim s) = a :: cs := by
+      cases h : rtrim (ltrim s) with
+      | nil => exact absurd h hc
+      | cons a cs => exact ⟨a, cs, rfl⟩
+    obtain ⟨a, cs, hcore⟩ := hc'
+    have hhead' : (rtrim (ltrim s)).head? ≠ some 32 := by
+      rw [hj, hcore] at hhead
+      rw [hcore]
+      simpa using hhead
+    have hs : s = (List.replicate k 32 ++ rtrim (ltrim s)) ++ List.replicate j 32 := by
+      rw [List.append_assoc, ← hj, ← hk]
+    have hlast' : (List.replicate k 32 ++ rtrim (ltrim s)).getLast? ≠ some 32 := by
+      rw [hcore] at hlast ⊢
+      rw [List.getLast?_append]
+      cases h : (a :: cs).getLast? with
+      | none => simp at h
+      | some x => rw [h] at hlast; simpa using hlast
+    have h1 : rtrim s = List.replicate k 32 ++ rtrim (ltrim s) := by
+      conv => lhs; rw [hs]
+      exact rtrim_unique j _ hlast'
+    rw [h1]
+    exact ltrim_unique k _ hhead'
+
+example : ltrim (rtrim [32, 32, 97, 32, 98, 32]) = [97, 32, 98] ∧ rtrim (ltrim [32, 32, 97, 32, 98, 32]) = [97, 32, 98] := by
+  decide
+
+/-- Trimming is idempotent. -/
+theorem ltrim_idem (s : List Nat) : ltrim (ltrim s) = ltrim s := by
+  obtain ⟨_, _, hhead⟩ := ltrim_exact s
+  simpa using ltrim_unique 0 (ltrim s) hhead
+
+theorem rtrim_idem (s : List Nat) : rtrim (rtrim s) = rtrim s := by
+  obtain ⟨_, _, hlast⟩ := rtrim_exact s
+  simpa using rtrim_unique 0 (rtrim s) hlast
+
+/-- LEN(UCASE$(s)) = LEN(s) = LEN(LCASE$(s)), and LEN of a trimmed string is not larger. -/
+theorem len_case_trim (s : List Nat) :
+    len (ucase s) = len s ∧ len (lcase s) = len s ∧ len (ltrim s) ≤ len s ∧ len (rtrim s) ≤ len s := by
+  refine ⟨by simp [len, ucase], by simp [len, lcase], ?_, ?_⟩
+  · obtain ⟨k, hk, _⟩ := ltrim_exact s
+    have := congrArg List.length hk
+    simp only [List.length_append, List.length_replicate] at this
+    simp only [len]; omega
+  · obtain ⟨k, hk, _⟩ := rtrim_exact s
+    have := congrArg List.length hk
+    simp only [List.length_append, List.length_replicate] at this
+    simp only [len]; omega
+
+/-- INSTR(n, s, t) for non-empty `t`: the result is 0 or lies in `n ..= LEN(s) - LEN(t) + 1`, and
+LEFT$/MID$ find `t` there: MID$(s, r, LEN(t)) = t. -/
+theorem instr_bounds (s t : List Nat) (n : Int) (ht : t ≠ []) (hn : 0 < n) :
+    ∃ r, instr (some n) s t = .ok r ∧
+      (r = 0 ∨ (n.toNat ≤ r ∧ r + len t ≤ len s + 1 ∧ mid s (r : Int) (some (len t : Int)) = .ok t)) := by
+  obtain ⟨r, hr, hcase⟩ := instr_least s t n ht hn
+  refine ⟨r, hr, ?_⟩
+  rcases hcase with ⟨h0, _⟩ | ⟨hge, hocc, _⟩
+  · exact Or.inl h0
+  · right
+    have hr1 : 1 ≤ r := hocc.1
+    have hpre := hocc.2
+    refine ⟨hge, ?_, ?_⟩
+    · rcases prefix_drop_length hpre with h | h
+      · simp only [len]; omega
+      · exact absurd h ht
+    · have h1 : 0 < (r : Int) := by omega
+      have h2 : 0 ≤ (len t : Int) := by omega
+      have hlt : len t = t.length := rfl
+      rw [hlt] at h2 ⊢
+      simp only [mid, doMid, toPositiveInt_pos h1, toNonNegativeInt_nonneg h2]
+      have e1 : (r : Int).toNat = r := by omega
+      have e2 : ((t.length : Nat) : Int).toNat = t.length := by omega
+      rw [e1, e2]
+      congr 1
+      exact (take_eq_iff_prefix t _).mpr hpre
+
+example : instr (some 2) [116, 104, 101, 32, 116, 104, 101] [116, 104, 101] = .ok 5 ∧
+    mid [116, 104, 101, 32, 116, 104, 101] 5 (some 3) = .ok [116, 104, 101] := by decide
+
+/-- A string is found in itself at position 1, and LEFT$(s, n) is found in `s` at position 1. -/
+theorem instr_self_prefix (s : List Nat) (n : Int) (hn : 0 < n) (hs : s ≠ []) :
+    ∃ l, left s n = .ok l ∧ instr none s l = .ok 1 := by
+  obtain ⟨l, hl, hpre, hlen⟩ := left_is_prefix s n (by omega)
+  refine ⟨l, hl, ?_⟩
+  have hlne : l ≠ [] := by
+    intro h
+    rw [h] at hlen
+    have : 0 < s.length := List.length_pos_iff.mpr hs
+    simp at hlen
+    omega
+  rw [instr_default_start]
+  obtain ⟨r, hr, hcase⟩ := instr_least s l 1 hlne (by omega)
+  rw [hr]
+  have hocc : OccursAt s l 1 := ⟨by omega, by simpa using hpre⟩
+  rcases hcase with ⟨_, hnone⟩ | ⟨hge, hocc', hmin⟩
+  · exact absurd hocc (hnone 1 (by simp))
+  · by_cases h1 : r = 1
+    · rw [h1]
+    · exact absurd hocc (hmin 1 (by simp) (by have := hocc'.1; simp at hge; omega))
+
+example : instr none [104, 97, 121] [104, 97] = .ok 1 := by decide
 
 /-! ### CHR$ -/
 
